@@ -9,6 +9,7 @@ import copy
 import itertools
 import os
 import shutil
+import sys
 
 from sim import prng, idhash, ddmin
 from gen import flowprog as F
@@ -26,7 +27,7 @@ from supp.name import MultiName, UndefinedName
 PROPERTY = 'C04'
 LEVEL = 'exploration'
 BUDGET_S = {'quick': 110, 'thorough': 1700}
-UNIT_TIMEOUT_S = 400
+UNIT_TIMEOUT_S = 1500
 REPO = os.path.dirname(os.path.dirname(os.path.abspath(supp.scope.__file__)))
 
 RULE = ('Part A: one evaluation = one query history on one analysed module: operations names_at / evaluate / declarations '
@@ -340,6 +341,12 @@ def check_project(case, stats):
     shutil.rmtree(root, ignore_errors=True)
     os.makedirs(root)
     G.write_project(root, case['spec'])
+    for link, target in case.get('links') or []:
+        # the same directory is part of the project under two package paths
+        os.makedirs(os.path.dirname(os.path.join(root, link)), exist_ok=True)
+        with open(os.path.join(os.path.dirname(os.path.join(root, link)), '__init__.py'), 'w') as f:
+            f.write('# package holding a link\n')
+        os.symlink(os.path.join(root, target), os.path.join(root, link))
     try:
         idhash.install(case.get('idhash_seed', 0))
         reqs = case['requests']
@@ -366,10 +373,59 @@ def check_project(case, stats):
             stats['probes']['project_histories'] += 1
             if vios:
                 break
+        sf = case.get('stack_faults')
+        if sf and not vios:
+            # fault injection: the stack runs out at some depth inside one request (the editor called from deep inside
+            # its own code, a huge expression, a thread with a small stack).  That request may fail or answer less; every
+            # request after it must answer what a fresh project answers.
+            for j in sf['victims']:
+                if j >= len(reqs) or vios:
+                    continue
+                for limit in sf['limits']:
+                    supp.scope.builtin_scope.__dict__.pop('names', None)
+                    p = Project([root])
+                    first = with_stack_limit(limit, lambda: ask(p, root, reqs[j]))
+                    stats['evals'] += 1
+                    if first == fresh[j]:
+                        break           # enough stack for this request: larger limits change nothing
+                    stats['faults']['stack_exhausted_inside_request'] = stats['faults'].get('stack_exhausted_inside_request', 0) + 1
+                    for k in ([j] + [x for x in sf['then'] if x != j and x < len(reqs)]):
+                        got = ask(p, root, reqs[k])
+                        stats['evals'] += 1
+                        if got != fresh[k] and not _resource(got, fresh[k]):
+                            vios.append({'sig': 'C04/after-stack-exhaustion/%s' % reqs[k]['kind'],
+                                         'detail': 'request %d ran out of stack %d frames in (it answered %s); after it request %d (%s %r at %r) answers %r; on a fresh project %r' % (
+                                             j, limit, _b(first)[:120], k, reqs[k]['kind'], reqs[k]['source'], reqs[k]['position'], _b(got), _b(fresh[k])),
+                                         'order': None, 'stack': [j, limit, k]})
+                            break
+                    if vios:
+                        break
     finally:
         idhash.uninstall()
         shutil.rmtree(root, ignore_errors=True)
     return vios
+
+
+def _depth():
+    f = sys._getframe()
+    n = 0
+    while f is not None:
+        n += 1
+        f = f.f_back
+    return n
+
+
+def with_stack_limit(frames, fn):
+    """Run fn() with room for `frames` more Python frames than the caller has."""
+    old = sys.getrecursionlimit()
+    sys.setrecursionlimit(_depth() + frames)
+    try:
+        return fn()
+    finally:
+        sys.setrecursionlimit(old)
+
+
+STACK_LIMITS = list(range(25, 120, 5)) + list(range(120, 420, 20))
 
 
 def _resource(a, b):
@@ -420,12 +476,41 @@ def gen_case(seed, i, mode):
     reqs += G.cycle_requests(r, spec)[:8]
     reqs += G.relative_requests(r, spec)[:6]
     reqs += literal_requests(r)
+    links = None
+    if any(m['name'] == 'zqp' for m in spec['modules']) and r.random() < 0.35:
+        links = [['zqw/zqp2', 'zqp']]
+        lr = link_requests(spec)
+        r.shuffle(lr)
+        reqs += lr[:8]
     orders = []
     for _ in range(r.choice((2, 3, 4))):
         orders.append([r.randrange(len(reqs)) for _ in range(n)])
     orders.append(list(range(len(reqs))) + list(range(len(reqs))))
     orders.append(list(range(len(reqs)))[::-1])
-    return {'kind': 'project', 'spec': spec, 'requests': reqs, 'orders': orders, 'idhash_seed': r.getrandbits(31)}
+    case = {'kind': 'project', 'spec': spec, 'requests': reqs, 'orders': orders, 'idhash_seed': r.getrandbits(31)}
+    if r.random() < 0.15:
+        case['stack_faults'] = {'victims': r.sample(range(len(reqs)), min(4, len(reqs))), 'limits': STACK_LIMITS,
+                                'then': r.sample(range(len(reqs)), min(6, len(reqs)))}
+    if links:
+        case['links'] = links
+    return case
+
+
+def link_requests(spec):
+    """Requests that reach the modules of package zqp under its own name and through the link zqw/zqp2 -> zqp
+    (relative imports inside must resolve within the spelling they were reached by)."""
+    table = G.exports(spec)
+    out = []
+    for m in spec['modules']:
+        if not m['name'].startswith('zqp.') or m.get('init'):
+            continue
+        for name, kind in table.get(m['name'], [])[:4]:
+            for sp in (m['name'], 'zqw.zqp2' + m['name'][3:]):
+                out.append({'kind': 'location', 'source': 'from %s import %s\nzr = %s\n' % (sp, name, name),
+                            'position': [2, 5 + len(name)], 'file': 'zqmain.py'})
+                out.append({'kind': 'assist', 'source': 'import %s\n%s.%s.\n' % (sp, sp, name),
+                            'position': [2, len(sp) + len(name) + 2], 'file': 'zqmain.py'})
+    return out
 
 
 def literal_requests(r):
@@ -478,7 +563,8 @@ def heavy_case(r):
               list(range(nparts))[::-1] + deep,                  # parts warmed one by one, then the deep walk
               [r.randrange(n) for _ in range(2 * n)]]
     return {'kind': 'project', 'spec': {'modules': mods}, 'requests': reqs, 'orders': orders, 'idhash_seed': r.getrandbits(31),
-            'heavy': [nparts, nfields]}
+            'heavy': [nparts, nfields],
+            'stack_faults': {'victims': deep[:2] + [0], 'limits': STACK_LIMITS, 'then': list(range(n))[:8]}}
 
 
 def small_loop_program(r):
@@ -516,7 +602,7 @@ def plan(tier, seed, scale=1.0):
     nflow = int((200 if tier == 'quick' else 4500) * scale)
     nsmall = int((220 if tier == 'quick' else 5000) * scale)
     nproj = int((400 if tier == 'quick' else 8000) * scale)
-    per = 10 if tier == 'quick' else 50
+    per = 10 if tier == 'quick' else 25
     nheavy = int((8 if tier == 'quick' else 160) * scale)
     groups = [[{'kind': 'file', 'path': fpath, 'seed': seed, 'tier': tier} for fpath in real_files(tier, seed)]]
     for mode, n in (('small', nsmall), ('flow', nflow), ('project', nproj)):
@@ -658,11 +744,17 @@ def shrink(case, sig):
                 base['failing_op'] = vs[0]['op']
     elif base['kind'] == 'project':
         vs = [v for v in run_case(base, new_stats()) if v['sig'] == sig]
-        if vs:
+        if vs and vs[0].get('stack'):
+            j, limit, k = vs[0]['stack']
+            c = dict(base, orders=[], stack_faults={'victims': [j], 'limits': [limit], 'then': [k]})
+            if bad(c):
+                base = c
+        elif vs:
             c = dict(base, orders=[vs[0]['order']])
             if bad(c):
                 base = c
-        base = ddmin.shrink_fields(base, [('orders', 0)], bad, ddmin.Budget(80))
+        if base['orders']:
+            base = ddmin.shrink_fields(base, [('orders', 0)], bad, ddmin.Budget(80))
         for mi in range(len(base['spec']['modules']) - 1, -1, -1):
             c = copy.deepcopy(base)
             del c['spec']['modules'][mi]
